@@ -117,7 +117,11 @@ pub async fn vx_vrf_retrieve<V: VRFKeyStorage>(vrf: &V) -> (r: Result<Vec<u8>, V
 { unimplemented!() }
 
 // ---- storage and tree, as seen by one request (T6)
-pub uninterp spec fn azks_read<S: Database>(storage: &StorageManager<S>) -> Result<Azks, AkdError>;
+// The epoch record is the one thing a request must NOT assume stable: a publish (same instance, a clone, or another instance over the
+// same storage) can complete between two reads of it. Reads of it are therefore nondeterministic here; `epoch_record_read(st, a)` only
+// says "this request obtained the value a from a read of the epoch record". (Everything else a request reads is a function of what it
+// sees - T6 - and node reads are as-of the epoch of the record the request holds.)
+pub uninterp spec fn epoch_record_read<S: Database>(storage: &StorageManager<S>, a: Azks) -> bool;
 pub uninterp spec fn user_state<S: Database>(storage: &StorageManager<S>, label: Seq<u8>, flag: ValueStateRetrievalFlag) -> Result<ValueState, StorageError>;
 pub uninterp spec fn mem_proof<S: Database>(azks: Azks, storage: &StorageManager<S>, label: NodeLabel) -> Result<MembershipProof, AkdError>;
 pub uninterp spec fn nonmem_proof<S: Database>(azks: Azks, storage: &StorageManager<S>, label: NodeLabel) -> Result<NonMembershipProof, AkdError>;
@@ -125,7 +129,7 @@ pub uninterp spec fn root_hash_of<S: Database>(azks: Azks, storage: &StorageMana
 impl<TC: Configuration, S: Database + 'static, V: VRFKeyStorage> Directory<TC, S, V> {
     #[verifier::external_body]
     pub(crate) async fn retrieve_azks(&self) -> (r: Result<Azks, AkdError>)
-        ensures r == azks_read(&self.storage)
+        ensures r is Ok ==> epoch_record_read(&self.storage, r->Ok_0)
     { unimplemented!() }
 }
 impl vstd::std_specs::convert::FromSpecImpl<StorageError> for AkdError {
@@ -144,18 +148,17 @@ pub fn vx_from_utf8() -> Result<&'static str, ()> { unimplemented!() }
 // ---- key history assembly (C03 partial)
 pub uninterp spec fn gmv_spec(s: u64, e: u64, ep: u64) -> (Seq<u64>, Seq<u64>);
 // what create_single_update_proof must assemble for one stored state (the fields key_history_verify / verify_single_update_proof check)
-pub open spec fn update_assembled<TC: Configuration, S: Database, V>(storage: &StorageManager<S>, vrf: &V, label: Seq<u8>, st: ValueState, up: UpdateProof) -> bool {
+pub open spec fn update_assembled<TC: Configuration, S: Database, V>(storage: &StorageManager<S>, vrf: &V, azks: Azks, label: Seq<u8>, st: ValueState, up: UpdateProof) -> bool {
     let v = st.version;
     &&& up.epoch == st.epoch && up.version == v && up.value == st.value
-    &&& azks_read(storage) is Ok
     &&& vrf_proof(vrf, label, VersionFreshness::Fresh, v) is Ok && up.existence_vrf_proof@ == proof_bytes(vrf_proof(vrf, label, VersionFreshness::Fresh, v)->Ok_0)
     &&& vrf_label(vrf, label, VersionFreshness::Fresh, v) is Ok
-    &&& Ok::<MembershipProof, AkdError>(up.existence_proof) == mem_proof(azks_read(storage)->Ok_0, storage, vrf_label(vrf, label, VersionFreshness::Fresh, v)->Ok_0)
+    &&& Ok::<MembershipProof, AkdError>(up.existence_proof) == mem_proof(azks, storage, vrf_label(vrf, label, VersionFreshness::Fresh, v)->Ok_0)
     // the previous version's STALE leaf, for every version after the first; nothing for the first
     &&& (v > 1 ==> {
             &&& up.previous_version_proof is Some && up.previous_version_vrf_proof is Some
             &&& vrf_label(vrf, label, VersionFreshness::Stale, (v - 1) as u64) is Ok
-            &&& Ok::<MembershipProof, AkdError>(up.previous_version_proof->Some_0) == mem_proof(azks_read(storage)->Ok_0, storage, vrf_label(vrf, label, VersionFreshness::Stale, (v - 1) as u64)->Ok_0)
+            &&& Ok::<MembershipProof, AkdError>(up.previous_version_proof->Some_0) == mem_proof(azks, storage, vrf_label(vrf, label, VersionFreshness::Stale, (v - 1) as u64)->Ok_0)
             &&& vrf_proof(vrf, label, VersionFreshness::Stale, (v - 1) as u64) is Ok
             &&& up.previous_version_vrf_proof->Some_0@ == proof_bytes(vrf_proof(vrf, label, VersionFreshness::Stale, (v - 1) as u64)->Ok_0)
         })
@@ -260,3 +263,11 @@ pub open spec fn per_label_ok<TC: Configuration, S: Database, V>(storage: &Stora
 
 // ---- audit entry point (C04 range validation at the directory level)
 pub uninterp spec fn append_only_of<S: Database>(azks: Azks, storage: &StorageManager<S>, start: u64, end: u64) -> Result<AppendOnlyProof, AkdError>;
+
+// one lookup answer, assembled entirely from ONE value `a` of the epoch record
+pub open spec fn lookup_answer_ok<TC: Configuration, S: Database, V>(storage: &StorageManager<S>, vrf: &V, label: Seq<u8>, a: Azks, proof: LookupProof, eh: EpochHash) -> bool {
+    &&& eh.0 == a.latest_epoch
+    &&& Ok::<Digest, AkdError>(eh.1) == root_hash_of(a, storage)
+    &&& info_selected(storage, vrf, label, a.latest_epoch, the_info(storage, vrf, label, a.latest_epoch))
+    &&& lookup_assembled::<TC, S, V>(storage, vrf, a, the_info(storage, vrf, label, a.latest_epoch), proof)
+}
